@@ -237,6 +237,8 @@ func (in *Interp) runPath(prefix []uint64) {
 	in.blocks = 0
 	in.allocBytes = 0
 	in.loopBound = 0
+	in.parked = nil
+	in.inGoroutine = 0
 	in.elemOrigin = nil
 	if in.sol != nil {
 		in.sol.Reset()
